@@ -1987,7 +1987,9 @@ class Sim:
                     break
         return ran
 
-    def run_to_idle(self, cap=5000):
+    def run_to_idle(self, cap=None):
+        if cap is None:
+            cap = self.run.get("idle_cap", 5000)
         total = 0
         while True:
             r = self._run_handles(cap - total)
